@@ -81,17 +81,32 @@ def build_case(rng, kind, text, where, in_include):
     body = "\n".join(lines) + "\n"
     if not in_include:
         return body, asm_files, "main.c", target, None
-    # put everything in an include, reached from main after more shifting
-    main = []
-    for _ in range(rng.randint(0, 5)):
-        s = rng.choice(SHIFTERS)
-        if "%d" in s:
-            cnt[0] += 1
-            s = s % (100 + cnt[0])
-        main.extend(s.split("\n"))
-    main.append('#include "inc.h"')
-    incline = len(main)
-    return "\n".join(main) + "\n", [("inc.h", body)] + asm_files, "inc.h", target, ("main.c", incline)
+    # put everything in an include, reached from main through 1-3 levels of inclusion, each after more
+    # shifting; the error must name the file that includes the defect file directly, and that line
+    depth = rng.choice([1, 1, 2, 3])
+    chain = ["main.c"] + ["mid%d.h" % k for k in range(1, depth)] + ["inc.h"]
+    files = [("inc.h", body)] + asm_files
+    einc = None
+    main_text = None
+    for lvl in range(len(chain) - 2, -1, -1):
+        text_lines = []
+        for _ in range(rng.randint(0, 5)):
+            s_ = rng.choice(SHIFTERS)
+            if "%d" in s_:
+                cnt[0] += 1
+                s_ = s_ % (100 * (lvl + 1) + cnt[0])
+            text_lines.extend(s_.split("\n"))
+        text_lines.append('#include "%s"' % chain[lvl + 1])
+        if lvl == len(chain) - 2:
+            einc = (chain[lvl], len(text_lines))
+        for _ in range(rng.randint(0, 2)):
+            text_lines.append("// after the include")
+        t = "\n".join(text_lines) + "\n"
+        if lvl == 0:
+            main_text = t
+        else:
+            files.append((chain[lvl], t))
+    return main_text, files, "inc.h", target, einc
 
 
 def run(chk):
